@@ -33,6 +33,10 @@ KINDS = {
     "comparison": ["(t.a == 1)", "(t.a > t.b)"],
     "boolean": ["((t.a == 1) & (t.b == 2))", "((t.a > 1) | t.b.isnull())"],
     "mod_pow": ["(t.a % 3)", "(t.a ** 2)"],
+    # alias given to the constructor instead of .as_()
+    "ctor_alias": ["fn.Sum(t.a, alias={alias!r})", "an.FirstValue(t.a, alias={alias!r}).over(t.b).orderby(t.x)"],
+    "ctor_alias2": ["an.LastValue(t.a, alias={alias!r}).over(t.b).orderby(t.x).ignore_nulls()", "F('a', alias={alias!r}, table=t)"],
+    "ctor_alias3": ["an.Rank(alias={alias!r}).over(t.b).orderby(t.a)", "fn.Coalesce(t.a, 0, alias={alias!r})"],
 }
 POSITIONS = ["select", "where", "having", "on", "func_arg", "operand", "groupby_sel", "orderby_sel", "groupby_unsel", "orderby_unsel"]
 ALIASES = ["al", "my col"]
@@ -48,6 +52,10 @@ def generate(rng, n, tier):
             for si in range(len(shapes)):
                 for pos in POSITIONS:
                     yield {"cls": cls, "kind": kind, "shape": si, "positions": [pos], "alias": ALIASES[(si + len(pos)) % 2]}
+    for cls in QNAMES:
+        for inner in QNAMES:
+            for kind in ("field", "arith", "function", "case"):
+                yield {"cls": cls, "kind": kind, "shape": 0, "positions": ["nested_groupby"], "alias": "al", "inner_cls": inner}
     for _ in range(n):
         k = rng.randint(2, 4)
         yield {"cls": rng.choice(list(QNAMES)), "kind": rng.choice(list(KINDS)), "shape": rng.randint(0, 1),
@@ -57,7 +65,10 @@ def generate(rng, n, tier):
 def build(case):
     qn = QNAMES[case["cls"]]
     expr = KINDS[case["kind"]][case["shape"]].replace("{Q}", QNAMES[case.get("inner_cls", case["cls"])])
-    lines = ["t = T('t')", "u = T('u')", "e = %s.as_(%r)" % (expr, case["alias"])]
+    if "{alias" in expr:
+        lines = ["t = T('t')", "u = T('u')", "e = %s" % expr.format(alias=case["alias"])]
+    else:
+        lines = ["t = T('t')", "u = T('u')", "e = %s.as_(%r)" % (expr, case["alias"])]
     pos = case["positions"]
     is_crit = case["kind"] in ("comparison", "boolean")
     is_sub = case["kind"] == "subquery"
@@ -82,6 +93,11 @@ def build(case):
         chain += ".having(%s)" % ("e" if is_crit else "(fn.Sum(t.a) > e)" if is_sub else "e < 5")
     if "orderby_sel" in pos or "orderby_unsel" in pos:
         chain += ".orderby(e)"
+    if pos == ["nested_groupby"]:
+        qi = QNAMES[case.get("inner_cls", case["cls"])]
+        lines.append("inner = %s.from_(t).select(e, fn.Sum(t.x).as_('s')).groupby(e)" % qi)
+        lines.append("q = %s.from_(inner).select(inner.al, inner.s).where(inner.s > 1)" % qn)
+        return "\n".join(lines)
     lines.append("q = %s.from_(t)%s" % (qn, chain))
     return "\n".join(lines)
 
@@ -94,6 +110,8 @@ def examine(case):
         pos = [p for p in pos if p != "groupby_unsel"]
     if "orderby_sel" in pos and "orderby_unsel" in pos:
         pos = [p for p in pos if p != "orderby_unsel"]
+    if pos == ["nested_groupby"]:
+        return examine_nested(dict(case, positions=pos))
     selected = any(p in pos for p in ("select", "groupby_sel", "orderby_sel"))
     if selected:
         pos = [p for p in pos if p not in ("groupby_unsel", "orderby_unsel")] + \
@@ -143,20 +161,14 @@ def examine(case):
           % (alias, len(occ), want_def, want_refs, pos))
         return res
     aq = AQ or Q
-    if case["kind"] == "subquery":
-        qa = b.ALIAS_QUOTE_CHAR if b.QUERY_ALIAS_QUOTE_CHAR is None else b.QUERY_ALIAS_QUOTE_CHAR
-        inner = ns.QUERY_CLASSES[case.get("inner_cls", cls)]._builder() if case["shape"] == 1 else ns.Query._builder()
-        qa = inner.ALIAS_QUOTE_CHAR if inner.QUERY_ALIAS_QUOTE_CHAR is None else inner.QUERY_ALIAS_QUOTE_CHAR
-        aq_def = qa or Q
-    else:
-        aq_def = aq
     if selected:
         d = toks[occ[0]]
-        if d.quote != aq_def:
-            if case["kind"] == "subquery" and aq_def != aq:
-                F("subquery-alias-quote-from-inner-class", "sub-query alias quoted %r by the inner class's rule" % d.quote)
+        if d.quote != aq:
+            if case["kind"] == "subquery":
+                F("subquery-alias-quote-from-inner-class", "sub-query alias is defined with quote %r but the %s alias convention "
+                  "(used by GROUP BY / ORDER BY references) is %r" % (d.quote, cls, aq))
             else:
-                F("alias-quote", "alias definition is quoted %r, the %s alias convention is %r" % (d.quote, cls, aq_def))
+                F("alias-quote", "alias definition is quoted %r, the %s alias convention is %r" % (d.quote, cls, aq))
         prev = toks[occ[0] - 1] if occ[0] > 0 else None
         has_as = prev is not None and prev.kind == "kw" and prev.val == "AS"
         if has_as != bool(b.as_keyword):
@@ -177,4 +189,33 @@ def examine(case):
         for r in occ[1:]:
             if toks[r].quote != aq:
                 F("alias-ref-quote", "alias reference quoted %r, expected %r" % (toks[r].quote, aq))
+    return res
+
+
+def examine_nested(case):
+    """an aliased term grouped inside a FROM sub-query built by another class: the OUTER dialect decides GROUP BY alias use"""
+    res = Result()
+    b0 = ns.QUERY_CLASSES[case["cls"]]._builder()
+    src = build(case)
+    case["recipe"] = src
+    env = ns.ex(src)
+    q = env["q"]
+    text = str(q)
+    cls, inner = case["cls"], case.get("inner_cls")
+    res.nontrivial = True
+    res.key = struct_hash(["nested", case["kind"], cls, inner])
+    res.tags = ["kind=" + case["kind"], "cls=" + cls, "pos=nested_groupby"]
+    try:
+        res.requests.append(({"op": "render", "ctx": describe.d_ctx({"dialect": q.dialect}), "term": describe.describe(q)},
+                             {"sql": text}, "str(statement)"))
+    except Unsupported as ex:
+        res.skipped = str(ex)[:40]
+    m = re.search(r"GROUP BY (.*?)\)", text)
+    grouped_by_alias = bool(m and re.fullmatch(r"[\"`]?al[\"`]?", m.group(1).strip()))
+    if cls in ("oracle", "mssql") and grouped_by_alias:
+        res.findings.append({"sig": {"kind": "groupby-alias-under-fetch-family", "term": case["kind"]},
+                             "what": "GROUP BY refers to an alias inside a %s statement (sub-query built by %s): %s" % (cls, inner, text)})
+    if cls not in ("oracle", "mssql") and inner not in ("oracle", "mssql") and not grouped_by_alias:
+        res.findings.append({"sig": {"kind": "groupby-alias-not-used", "term": case["kind"]},
+                             "what": "GROUP BY does not refer to the selected alias under %s: %s" % (cls, text)})
     return res
